@@ -455,6 +455,59 @@ func runC13(c *Ctx) {
 		}
 	}
 	c.Note("R13c: %d module functions reachable from %d Apply roots (static calls + module interfaces)", nReach, len(roots))
+	// the sign commands themselves (the paths around Apply: opening the input for patching, the
+	// --if-unsigned shortcut, error exits): nothing there creates or truncates a file either, logs
+	// opened for appending excepted
+	var cmdRoots []*ssa.Function
+	for _, spec := range []string{"cmdline/token.signCmd", "cmdline/remotecmd.signCmd", "cmdline/shared.OpenForPatching"} {
+		if f := p.Func(spec); f != nil {
+			cmdRoots = append(cmdRoots, f)
+		} else {
+			c.Undecided(rc, spec, "-", "function not found")
+		}
+	}
+	done := map[*ssa.Function]bool{}
+	for _, f := range fns {
+		done[f] = true
+	}
+	var cmdFns []*ssa.Function
+	for f := range p.moduleReach(cmdRoots, map[string]bool{"lib/atomicfile": true}) {
+		if !done[f] {
+			cmdFns = append(cmdFns, f)
+		}
+	}
+	sort.Slice(cmdFns, func(i, j int) bool { return p.FName(cmdFns[i]) < p.FName(cmdFns[j]) })
+	nCmd := 0
+	for _, fn := range cmdFns {
+		n := 0
+		for _, b := range fn.Blocks {
+			for _, in := range b.Instrs {
+				ci, ok := in.(ssa.CallInstruction)
+				if !ok {
+					continue
+				}
+				name := p.calleeName(ci.Common())
+				switch name {
+				case "os.Create", "os.WriteFile", "io/ioutil.WriteFile", "os.Truncate":
+				case "os.OpenFile":
+					fl, ok := constInt(ci.Common().Args[1])
+					if ok && (fl&(0x40|0x200) == 0 || fl&0x400 != 0) {
+						continue // neither creates nor truncates, or a log opened for appending
+					}
+				default:
+					continue
+				}
+				if p.isTempScratch(fn, ci) {
+					continue
+				}
+				n++
+				nCmd++
+				c.Analysed(p.FName(fn))
+				c.Fail(rc, fmt.Sprintf("%s %s#%d (sign command path)", p.FName(fn), name, n), p.Pos(ci.Pos()), fmt.Sprintf("%s on a path of the sign command creates or truncates a file directly: whatever it writes there is not written to a temporary file and renamed, so an interrupted run leaves a partial or empty file at that path", name))
+			}
+		}
+	}
+	c.PassTrivial(rc, "sign command paths create files only through lib/atomicfile", "-", fmt.Sprintf("%d further functions reachable from the sign commands, %d direct creations", len(cmdFns), nCmd))
 	// source file writes in binpatch.Apply only under canOverwrite
 	if ap := p.Func("lib/binpatch.(*PatchSet).Apply"); ap != nil && len(ap.Params) >= 2 {
 		infile := ap.Params[1]
